@@ -15,6 +15,22 @@ use crate::{
 use anyhow::Context;
 use quote::{quote, ToTokens};
 
+thread_local! {
+    /// The predefined type names for which the module being written has an item of its own:
+    /// inside that module the bare name means the item, so the predefined type is written
+    /// with its full path there.
+    static SHADOWED_PREDEFINED: std::cell::RefCell<std::collections::HashSet<String>> =
+        Default::default();
+}
+
+fn predefined_type_path(name: &str) -> String {
+    if SHADOWED_PREDEFINED.with(|s| s.borrow().contains(name)) {
+        format!("::core::primitive::{name}")
+    } else {
+        name.to_string()
+    }
+}
+
 pub fn write_module(
     out_dir: &Path,
     key: &ItemPath,
@@ -67,6 +83,22 @@ pub fn write_module(
         .join("\n");
 
     writeln!(raw_output, "{prologues}")?;
+
+    let shadowed = module
+        .ast
+        .definitions
+        .iter()
+        .map(|d| d.name.as_str())
+        .chain(module.ast.extern_types.iter().map(|(name, _)| name.as_str()))
+        .filter(|name| {
+            semantic_state
+                .type_registry()
+                .get(&ItemPath::from(*name))
+                .is_some_and(|item| item.is_predefined())
+        })
+        .map(|name| name.to_string())
+        .collect();
+    SHADOWED_PREDEFINED.with(|s| *s.borrow_mut() = shadowed);
 
     let mut definitions = module
         .definitions(semantic_state.type_registry())
@@ -202,10 +234,11 @@ fn build_type(
     let size_check_ident = quote::format_ident!("_{}_size_check", unraw(name.as_str()));
     let size_check_impl = (size > 0).then(|| {
         let size = hex_literal(size);
+        let byte: syn::Type = syn::parse_str(&predefined_type_path("u8")).unwrap();
         quote! {
             fn #size_check_ident() {
                 unsafe {
-                    ::std::mem::transmute::<[u8; #size], #name_ident>([0u8; #size]);
+                    ::std::mem::transmute::<[#byte; #size], #name_ident>([0u8; #size]);
                 }
                 unreachable!()
             }
@@ -481,10 +514,11 @@ fn build_enum(
     let size_check_ident = quote::format_ident!("_{}_size_check", unraw(name.as_str()));
     let size_check_impl = (size > 0).then(|| {
         let size = hex_literal(size);
+        let byte: syn::Type = syn::parse_str(&predefined_type_path("u8")).unwrap();
         quote! {
             fn #size_check_ident() {
                 unsafe {
-                    ::std::mem::transmute::<[u8; #size], #name_ident>([0u8; #size]);
+                    ::std::mem::transmute::<[#byte; #size], #name_ident>([0u8; #size]);
                 }
                 unreachable!()
             }
@@ -715,9 +749,10 @@ fn fully_qualified_type_ref_impl(out: &mut String, type_ref: &Type) -> Result<()
             } else {
                 // todo: re-evaluate this hack
                 if path.len() > 1 {
-                    write!(out, "crate::")?;
+                    write!(out, "crate::{}", path)
+                } else {
+                    write!(out, "{}", predefined_type_path(&path.to_string()))
                 }
-                write!(out, "{}", path)
             }
         }
         Type::ConstPointer(tr) => {
